@@ -24,8 +24,8 @@ def run(repo, chk):
     chk.note_undecided('numerical equality of cached, uncached and masked passes', 'independence from batch composition (depends on torch kernels)')
     R = Rules(repo, chk)
     refcheck.run_all(R, repo, chk, 'RECUR', 'transformer_ref.py', WHAT)
-    R.run('IDXPAIR', idxpair, repo, Soft(chk))
-    R.run('FACTS', facts, repo, Soft(chk))
+    R.run('IDXPAIR', idxpair, repo, Soft(chk), soft_for=[T + ':CustomMultiheadAttention.cached_forward', T + ':DecoderLayer.infer'])
+    R.run('FACTS', facts, repo, Soft(chk), soft_for=[E + ':TransformerEngineLineOCR.transcribe_batch', E + ':TransformerEngineLineOCR.postprocess_decoded'])
     chk.expect('IDXPAIR', 6)
     chk.expect('FACTS', 5)
     chk.expect('RECUR', 15)
